@@ -171,6 +171,9 @@ def run_history(ctx, drv, case, tag):
     builder = sc.Builder(None)
     sink = io.StringIO()
     objs = [builder.build(r) for r in case["objs"]]
+    # the graphs the USER built, kept by the harness (updated only by the explicit `mutate` ops): a call that
+    # leaves an object changed — e.g. after raising part-way — shows as a failed round trip of a later save
+    specs = [sc.observe(o) for o in objs]
     ref = {}          # final path -> spec of the last save that returned normally   (independent reference)
     dirty = set()     # final paths a save raised part-way on since (what they hold is C08's clause, not read here)
     mops, real = [], []   # ops sent to the model / what the real code did, index-aligned
@@ -188,7 +191,7 @@ def run_history(ctx, drv, case, tag):
                 _, oi, ti, mode, store, level, form, as_path = op
                 name = os.path.join(base, TARGET_NAMES[ti])
                 final = ref_final(name, store)
-                spec = sc.observe(objs[oi])
+                spec = specs[oi]
                 why = ref_admissible(name, mode, store, level, os.path.lexists(final))
                 lvl = np.int64(level) if (level is not None and as_path and level % 2 == 1) else level   # NumPy integer form of the level
                 ctx.count()
@@ -207,9 +210,6 @@ def run_history(ctx, drv, case, tag):
                         ctx.pred_fail(f"history:save-raises:{type(e).__name__}", "a save inside the property's quantifier raised "
                                       "(supported graph, store zip/dir, level None/0..9, target absent or mode='o')", case,
                                       observed=out, required="save succeeds")
-                if sc.observe(objs[oi]) != spec:
-                    ctx.pred_fail("history:save-mutates-source", "save() changed the object graph it was asked to save", case,
-                                  observed=sc.short(sc.observe(objs[oi])), required=sc.short(spec))
                 mops.append({"k": "save", "v": spec, "path": name, "mode": mode, "store": store, "level": level})
                 real.append(out)
                 ctx.dist[f"hist:save:{'ok' if 'saved' in out else why or 'raised'}"] += 1
@@ -273,18 +273,15 @@ def run_history(ctx, drv, case, tag):
                 ctx.dist[f"hist:{k}:{'hit' if path in ref else 'missing'}"] += 1
             elif k == "mutate":
                 mutate(objs[op[1]], op[2], op[3])
+                specs[op[1]] = sc.observe(objs[op[1]])
                 ctx.dist["hist:mutate:" + op[2]] += 1
             elif k == "scramble":
                 if last_loaded is not None:
                     scramble(last_loaded)
                     ctx.dist["hist:scramble"] += 1
             elif k == "print_tree":
-                before = sc.observe(objs[op[1]])
                 with contextlib.redirect_stdout(sink):
                     objs[op[1]].print_tree()
-                if sc.observe(objs[op[1]]) != before:
-                    ctx.pred_fail("history:print_tree-mutates", "print_tree() changed the object", case,
-                                  observed=sc.short(sc.observe(objs[op[1]])), required=sc.short(before))
         # ---- model
         m = drv.ask({"op": "history", "ops": mops})
         if "ok" not in m:
@@ -358,21 +355,29 @@ def resolve_case(ctx, drv, case, tag):
             ctx.pred_fail(f"save-args:raises:{impl['err']}", "a save inside the property's quantifier raised", case,
                           observed=impl, required="save succeeds")
         if "ok" in impl:
-            with contextlib.redirect_stdout(sink):
-                back = serialize.load(final)
-            d = sc.prop_equal(spec, sc.observe(back))
-            if d:
-                ctx.pred_fail("save-args:roundtrip", f"loaded graph differs at {d[0]}", case, observed=sc.short(d[2]), required=sc.short(d[1]))
+            try:
+                with contextlib.redirect_stdout(sink):
+                    back = serialize.load(final)
+                d = sc.prop_equal(spec, sc.observe(back))
+                if d:
+                    ctx.pred_fail("save-args:roundtrip", f"loaded graph differs at {d[0]}", case, observed=sc.short(d[2]), required=sc.short(d[1]))
+            except Exception as e:  # noqa
+                ctx.pred_fail(f"save-args:load-raises:{type(e).__name__}", "load() of the target a save just wrote raised", case,
+                              observed=str(e)[:160], required="the saved graph")
         else:
             # exception safety: the rejected call must not poison a following valid one on the same object
             for st, nm in (("zip", "after.zip"), ("dir", "after")):
-                with contextlib.redirect_stdout(sink):
-                    o.save(os.path.join(base, nm), store=st)
-                    back = serialize.load(os.path.join(base, nm))
-                d = sc.prop_equal(spec, sc.observe(back))
-                if d:
-                    ctx.pred_fail("save-args:after-rejected", f"a valid save after a rejected one does not round-trip (at {d[0]})", case,
-                                  observed=sc.short(d[2]), required=sc.short(d[1]))
+                try:
+                    with contextlib.redirect_stdout(sink):
+                        o.save(os.path.join(base, nm), store=st)
+                        back = serialize.load(os.path.join(base, nm))
+                    d = sc.prop_equal(spec, sc.observe(back))
+                    if d:
+                        ctx.pred_fail("save-args:after-rejected", f"a valid save after a rejected one does not round-trip (at {d[0]})", case,
+                                      observed=sc.short(d[2]), required=sc.short(d[1]))
+                except Exception as e:  # noqa
+                    ctx.pred_fail(f"save-args:after-rejected-raises:{type(e).__name__}",
+                                  "a valid save + load after a rejected save raised", case, observed=str(e)[:160], required="round trip")
         ctx.dist[f"save-args:{why or 'admissible'}"] += 1
         ctx.mark(("save-args", case["name"], case["store"], case["mode"], why or "ok", case["exists"]))
     finally:
@@ -546,3 +551,112 @@ def dispatch_stream(ctx, drv):
             ctx.dist["dispatch-value:" + m["kind"]] += 1
     finally:
         shutil.rmtree(scratch, ignore_errors=True)
+
+
+# ---- wider input classes for the round-trip stream (C01 only; ser_common.Gen / Builder are shared) -------
+class BuilderX(sc.Builder):
+    """adds ALIASED members: one Python object referenced from several places of the graph"""
+
+    def build(self, r):
+        t = r[0]
+        if t == "shared":            # ["shared", "list"|"tuple", recipe, n]
+            x = self.build(r[2])
+            return [x] * r[3] if r[1] == "list" else tuple([x] * r[3])
+        if t == "shared_dict":       # ["shared_dict", [keys], recipe]
+            x = self.build(r[2])
+            return {k: x for k in r[1]}
+        if t == "shared_obj":        # ["shared_obj", cls, [names], recipe]
+            from . import ser_classes
+            o = ser_classes.CLASSES[r[1]].__new__(ser_classes.CLASSES[r[1]])
+            x = self.build(r[3])
+            for k in r[2]:
+                setattr(o, k, x)
+            return o
+        if t in ("list", "tuple", "set", "dict", "obj"):
+            # same as the base class, but recursing through this builder
+            if t == "list":
+                return [self.build(e) for e in r[1]]
+            if t == "tuple":
+                return tuple(self.build(e) for e in r[1])
+            if t == "set":
+                return set(self.build(e) for e in r[1])
+            if t == "dict":
+                return {k: self.build(e) for k, e in r[1]}
+            from . import ser_classes
+            o = ser_classes.CLASSES[r[1]].__new__(ser_classes.CLASSES[r[1]])
+            for k, e in r[2]:
+                setattr(o, k, self.build(e))
+            return o
+        return super().build(r)
+
+
+DICT_KEYS_X = [" ", "a.b", "values", "10", "007", "-1", "1.5", "_container", "x y", "k"]
+
+
+class GenX(sc.Gen):
+    """degenerate classes the base generator does not draw: aliased members, exact duplicates, one-element
+    sequences of every scalar type, integers beyond int64 outside numeric sequences, dict keys that look like
+    element indices / metadata / dotted names, empty root objects"""
+
+    def value(self, depth, in_container=False, hashable=False):
+        rng = self.rng
+        if hashable or not rng.chance(0.22):
+            return super().value(depth, in_container, hashable)
+        S = sc.S
+        opts = [
+            (lambda: ["shared", rng.choice(["list", "tuple"]), super(GenX, self).value(0, True), rng.randint(2, 3)], 3),
+            (lambda: ["shared_dict", rng.sample(DICT_KEYS_X, rng.randint(2, 3)), super(GenX, self).value(0, True)], 2),
+            (lambda: ["shared_obj", rng.choice(["SA", "SB"]), rng.sample(sc.NAMES, rng.randint(2, 3)), super(GenX, self).value(max(depth - 1, 0), False)], 2),
+            (lambda: [rng.choice(["list", "tuple"]), [["scalar", S(rng.choice(["a", "", None, "0"]))]] * rng.randint(2, 4)], 2),
+            (lambda: [rng.choice(["list", "tuple"]), [rng.choice([["np", "float16", S(0.5)], ["np", "uint8", S(255)], ["np", "int8", S(-128)],
+                                                                 ["np", "bool", S(True)], ["scalar", S(-0.0)], ["scalar", S(0)],
+                                                                 ["scalar", S(False)], ["np", "float32", S(float("nan"))]])]], 3),
+            (lambda: ["scalar", S(rng.choice([2 ** 70, -(2 ** 70), 2 ** 63, 5e-324, "a\x00b", "x" * 3000]))], 2),
+            (lambda: [rng.choice(["list", "tuple"]), [["scalar", S(rng.choice([2 ** 70, 2 ** 64]))], ["scalar", S("tail")]]], 1),
+            (lambda: ["dict", [[k, super(GenX, self).value(0, True)] for k in rng.sample(DICT_KEYS_X, rng.randint(1, 4))]], 3),
+            (lambda: ["obj", rng.choice(["SA", "SB", "SC"]), []], 1),
+            (lambda: ["list", [["list", []], ["tuple", []], ["dict", []], ["set", []], ["obj", "SC", []]]], 1),
+        ]
+        return rng.weighted(opts)()
+
+    def root(self, depth):
+        if self.rng.chance(0.03):
+            return ["obj", self.rng.choice(["SA", "SB", "SC"]), []]          # an object without attributes
+        return super().root(depth)
+
+
+# ---- fixed probes of recorded findings -------------------------------------------------------------------
+def finding_probes(ctx):
+    import numpy as np
+    from quantem.core.io import serialize
+    from . import ser_classes
+    base = _scratch("probes")
+    sink = io.StringIO()
+    try:
+        probes = [("dict-key-not-a-zarr-node-name", {"": np.arange(2)}), ("dict-key-not-a-zarr-node-name", {"..": np.arange(2)}),
+                  ("dict-key-not-a-zarr-node-name", {".": [1, "a"]}),
+                  ("ndarray-non-native-byteorder", np.arange(3, dtype=np.dtype("int32").newbyteorder("S")))]
+        for i, (key, val) in enumerate(probes):
+            o = ser_classes.SA.__new__(ser_classes.SA)
+            o.v = val
+            case = {"probe": key, "value": repr(val)[:60]}
+            ctx.count()
+            try:
+                with contextlib.redirect_stdout(sink):
+                    o.save(os.path.join(base, f"p{i}.zip"))
+                    back = serialize.load(os.path.join(base, f"p{i}.zip"))
+                want = sc.observe(o)
+                got = sc.observe(back)
+                if isinstance(val, np.ndarray):
+                    ok = got == want and back.v.dtype == val.dtype
+                    obs = str(back.v.dtype) + " byteorder " + back.v.dtype.byteorder
+                    req = str(val.dtype) + " byteorder " + val.dtype.byteorder
+                else:
+                    d = sc.prop_equal(want, got)
+                    ok, obs, req = d is None, sc.short(d[2]) if d else None, sc.short(d[1]) if d else None
+                if not ok:
+                    ctx.pred_fail(key, "loaded graph differs from the saved one", case, observed=obs, required=req)
+            except Exception as e:  # noqa
+                ctx.pred_fail(key, "save/load raised", case, observed=f"{type(e).__name__}: {str(e)[:100]}", required="round trip")
+    finally:
+        shutil.rmtree(base, ignore_errors=True)
